@@ -56,7 +56,8 @@ def case(draw, tier="quick"):
             "closed": draw(st.booleans()),
             # the separator may also come from the documented setting flumine.config.order_sep (set at run time)
             "via_config": draw(st.integers(0, 3)) == 0,
-            "replaced_twins": draw(st.integers(0, 2)) == 0}
+            "replaced_twins": draw(st.integers(0, 2)) == 0,
+            "betdaq_first": draw(st.integers(0, 2)) == 0}
 
 
 def make_orders(strategy, n, sep, market_id="1.100000000"):
@@ -108,6 +109,13 @@ def check(c):
                 classes.add("separator-from-config:" + ("valid" if sep_valid else "invalid"))
                 sep_use = None
             elif not sep_valid:
+                if c.get("betdaq_first"):
+                    # the process also trades on Betdaq, whose references are plain order ids: any separator is accepted
+                    # there - that must not make it acceptable for a Betfair reference afterwards
+                    from flumine.order.ordertype import BetdaqLimitOrder
+
+                    Trade("12345", 1, 0, strategies[0]).create_betdaq_order("BACK", BetdaqLimitOrder(2.0, 2.0, 1, 0, 0), sep=sep)
+                    classes.add("same-separator-used-for-a-betdaq-order-first")
                 t = Trade("1.100000000", 1001, 0, strategies[0])
                 try:
                     t.create_order("BACK", LimitOrder(2.0, 2.0), sep=sep)
